@@ -9,7 +9,6 @@ import (
 	"k8s.io/apimachinery/pkg/types"
 	"k8s.io/apimachinery/pkg/util/validation/field"
 	gatewayv1 "sigs.k8s.io/gateway-api/apis/v1"
-	"sigs.k8s.io/gateway-api/apis/v1alpha3"
 
 	ngfAPI "github.com/nginx/nginx-gateway-fabric/apis/v1alpha1"
 
@@ -217,29 +216,25 @@ func createBackendRef(
 // https://github.com/nginx/nginx-gateway-fabric/issues/1546
 func validateBackendTLSPolicyMatchingAllBackends(backendRefs []BackendRef) *conditions.Condition {
 	var mismatch bool
-	var referencePolicy *BackendTLSPolicy
 
-	checkPoliciesEqual := func(p1, p2 *v1alpha3.BackendTLSPolicy) bool {
-		return !slices.Equal(p1.Spec.Validation.CACertificateRefs, p2.Spec.Validation.CACertificateRefs) ||
-			p1.Spec.Validation.WellKnownCACertificates != p2.Spec.Validation.WellKnownCACertificates ||
-			p1.Spec.Validation.Hostname != p2.Spec.Validation.Hostname
-	}
-
-	for _, backendRef := range backendRefs {
-		if backendRef.BackendTLSPolicy == nil {
-			if referencePolicy != nil {
-				// There was a reference before, so they do not all match
-				mismatch = true
-				break
-			}
-			continue
+	policiesDiffer := func(p1, p2 *BackendTLSPolicy) bool {
+		if p1 == nil || p2 == nil {
+			return p1 != p2
 		}
 
-		if referencePolicy == nil {
-			// First reference, store the policy as reference
-			referencePolicy = backendRef.BackendTLSPolicy
-		} else if checkPoliciesEqual(backendRef.BackendTLSPolicy.Source, referencePolicy.Source) {
-			// Check if the policies match
+		val1, val2 := p1.Source.Spec.Validation, p2.Source.Spec.Validation
+
+		// CACertificateRefs are local references: the same ConfigMap name in another namespace is another ConfigMap.
+		return !slices.Equal(val1.CACertificateRefs, val2.CACertificateRefs) ||
+			(len(val1.CACertificateRefs) > 0 && p1.Source.Namespace != p2.Source.Namespace) ||
+			(val1.WellKnownCACertificates == nil) != (val2.WellKnownCACertificates == nil) ||
+			(val1.WellKnownCACertificates != nil && *val1.WellKnownCACertificates != *val2.WellKnownCACertificates) ||
+			val1.Hostname != val2.Hostname
+	}
+
+	// every backend must carry the same configuration as the first one (including "no policy")
+	for i := 1; i < len(backendRefs); i++ {
+		if policiesDiffer(backendRefs[i].BackendTLSPolicy, backendRefs[0].BackendTLSPolicy) {
 			mismatch = true
 			break
 		}
